@@ -1,13 +1,13 @@
 package rules
 
 import (
-	"strconv"
 	"fmt"
-	"os"
 	"go/ast"
 	"go/token"
 	"go/types"
+	"os"
 	"reflect"
+	"strconv"
 	"strings"
 
 	"sopverif/eng"
